@@ -13,6 +13,8 @@ CHECKS = {
              ref="4.5", tech="symbolic execution of Lexer.get_next_token (symx + z3), one-step induction over the token stream"),
  "C09": dict(text="Token/end/diagnostic positions equal an independent position scanner for every window of <=N symbolic characters and every symbolic start (line, col); induction over tokens extends it to whole files.",
              ref="4.9", tech="symbolic execution of the lexer with symbolic start column/line (symx + z3 LIA queries) against an independent position oracle"),
+ "C11": dict(text="Differential check of the real literal parsers against an independent C11 6.4.4/6.4.5 recogniser: every literal of <=N symbolic characters (numeric and quoted alphabets) in a valid family is one clean token; every member of the malformed families M1..M15 carries its diagnostic.",
+             ref="4.11", tech="differential symbolic execution (symx + z3): reference C-constant recogniser vs the real lexer on the same symbolic literal"),
  "C10": dict(text="Token text equals the (normalised) consumed source span, progress and BAD_LEXEME accounting, for every window of <=N symbolic characters.",
              ref="4.10", tech="symbolic execution of the lexer (symx + z3) against an independent normaliser with its own C tables"),
 }
